@@ -19,6 +19,7 @@ for pid in ALL:
         continue
     mod = importlib.import_module(f"props.{pid}")
     rules = [f.__name__ for f in mod.RULES]
+    src = (HERE / "props" / f"{pid}.py").read_text()
     checks.append(
         {
             "property_id": pid,
@@ -32,8 +33,8 @@ for pid in ALL:
                 "text": "Static analysis (no execution): " + mod.EXPLANATION + " Every rule quantifies over all paths / call sites / siblings of the parsed source, which covers every input, schedule and history that can only select among those paths. It decides the structural necessary conditions listed in DESIGN.md for this property, not the runtime values.",
                 "design_ref": f"DESIGN.md section 4 ({pid})",
             },
-            "level_note": "Trusted: CPython's ast parser, the own resolver/CFG/poly/guard engines under sa/, and the library facts of DESIGN.md appendix B that the rules consume. Not decided: " + "; ".join(getattr(mod, "NOT_DECIDED", [])),
-            "technique": getattr(mod, "TECHNIQUE", "custom AST/CFG/call-graph static analysis (" + ", ".join(rules) + ")"),
+            "level_note": "Trusted: CPython's ast parser, the own resolver/CFG/inliner/path-evaluator/poly/guard engines under sa/, and the library facts of DESIGN.md appendix B that the rules consume. Not decided: " + "; ".join(getattr(mod, "NOT_DECIDED", [])),
+            "technique": getattr(mod, "TECHNIQUE", "custom static analysis over the parsed source, after helper-inlining normalisation: AST/CFG/call-graph rules" + ("; path-sensitive symbolic evaluation (sa/paths.py)" if "enumerate_paths" in src else "") + ("; exhaustive finite-domain evaluation of the deciding function by an AST interpreter (sa/minieval.py)" if "minieval" in src else "") + ("; polynomial identities (sa/poly.py)" if "to_poly" in src or "SymExec" in src else "") + " (" + ", ".join(rules) + ")"),
         }
     )
 
@@ -48,7 +49,7 @@ manifest = {
         "add_only": True,
     },
     "engines": [
-        {"name": "sa", "path": "sa/", "serves_properties": [c["property_id"] for c in checks], "kind_free_text": "repository-specific static analysers over Python ast: source index + import/re-export resolution, receiver typing and call graph, statement CFG with dominators/path counting, local provenance, polynomial and guard-interval domains, effect summaries; rule modules under props/, in-memory mutation self-test under mutants/"},
+        {"name": "sa", "path": "sa/", "serves_properties": [c["property_id"] for c in checks], "kind_free_text": "repository-specific static analysers over Python ast: source index + import/re-export resolution, receiver typing and call graph, helper-inlining normalisation (extract-method invariance), statement CFG with dominators/path counting, local provenance and canonical forms (accumulate-loops as comprehensions, guard clauses as nesting), path-sensitive symbolic evaluation, finite-domain evaluation of small pure functions, polynomial and guard-interval domains, effect summaries; rule modules under props/, in-memory mutation self-test under mutants/"},
     ],
     "checks": checks,
     "not_applicable": na,
